@@ -115,4 +115,21 @@ def mergeConfigList (env : Env) (configs : List Json) : Except Err (List Json) :
   | .ok acc =>
     .ok (if env.ebpf ∧ acc.require ∧ !acc.exist then acc.out ++ [chainer acc.datapath] else acc.out)
 
+/-! ### the file at `--output`
+
+`processInput` ends with `os.WriteFile(outPutPath, out, 0644)`: the file is opened with `O_TRUNC`, so what a reader gets afterwards
+is the new document and nothing of what an earlier run left there.  `overwrite` is what a write at offset 0 without truncation
+would leave (the tail of a longer old file survives); it is here only to say what `writeFile` is not. -/
+
+def writeFile (_old new : List UInt8) : List UInt8 := new
+
+def overwrite (old new : List UInt8) : List UInt8 := new ++ old.drop new.length
+
+/-- one run of `terway-cli cni` up to the file: the rendering of the generated list replaces the file; on an error the file is
+left as it was -/
+def generate (render : List Json → List UInt8) (env : Env) (configs : List Json) (old : List UInt8) : Except Err (List UInt8) :=
+  match mergeConfigList env configs with
+  | .error e => .error e
+  | .ok out => .ok (writeFile old (render out))
+
 end Terway.CniChain
